@@ -508,6 +508,53 @@ func leFieldMutants(b []byte, off, w int, tag string) []mutant {
 	return ms
 }
 
+// leConsistentTruncations: truncations that keep the enclosing length fields
+// consistent.  Every little-endian u16/u32 whose value equals the number of
+// bytes from the end of the field to the end of the buffer is taken to be a
+// "rest of buffer" length field (format-agnostic detection; a coincidental
+// match only adds a harmless mutant).  For every new length L all such fields
+// that lie completely before L are rewritten to cover exactly the truncated
+// rest, so that the decoder gets past the outer length checks and meets the
+// cut inside the innermost structure.
+func leConsistentTruncations(b []byte, from int) []mutant {
+	type fld struct{ off, w int }
+	var flds []fld
+	n := len(b)
+	for off := 0; off+2 <= n; off++ {
+		if off+4 <= n && int(binary.LittleEndian.Uint32(b[off:])) == n-off-4 && n-off-4 > 0 {
+			flds = append(flds, fld{off, 4})
+		} else if int(binary.LittleEndian.Uint16(b[off:])) == n-off-2 && n-off-2 > 0 {
+			flds = append(flds, fld{off, 2})
+		}
+	}
+	if len(flds) == 0 {
+		return nil
+	}
+	if from < flds[0].off+flds[0].w {
+		from = flds[0].off + flds[0].w
+	}
+	var ms []mutant
+	for L := from; L < n; L++ {
+		L := L
+		ms = append(ms, mutant{Desc: fmt.Sprintf("trunc-consistent:len=%d,fields=%d", L, len(flds)), Gen: func() []byte {
+			out := append([]byte(nil), b[:L]...)
+			for _, f := range flds {
+				if f.off+f.w > L {
+					continue
+				}
+				v := L - f.off - f.w
+				if f.w == 2 {
+					binary.LittleEndian.PutUint16(out[f.off:], uint16(v))
+				} else {
+					binary.LittleEndian.PutUint32(out[f.off:], uint32(v))
+				}
+			}
+			return out
+		}})
+	}
+	return ms
+}
+
 // leEveryOffset applies leFieldMutants at every offset (small seeds only).
 func leEveryOffset(b []byte) []mutant {
 	var ms []mutant
